@@ -110,6 +110,18 @@ MUTANTS = [
     ('lb hashBy non-string', [(['connectors'], [{'name': 'direct'}, lb('a', ['direct'], algo={'hashBy': 'request.target.port'})]), (['rules', 0, 'target'], 'a')]),
     ('lb hashBy runtime error', [(['connectors'], [{'name': 'direct'}, lb('a', ['direct'], algo={'hashBy': 'to_string(1 / (request.target.port - request.target.port))'})]), (['rules', 0, 'target'], 'a')]),
 ]
+# the listener `auth` sub-document: every combination of its three parts (the probe logs in as a listed user and as one
+# that only the command could vouch for)
+for req in (True, False):
+    for uname, users in (('absent', DELETE), ('empty', []), ('alice', [{'username': 'alice', 'password': 'wonderland'}])):
+        for cname, cmd in (('absent', DELETE), ('empty list', []), ('empty string', ['']), ('missing program', ['/nonexistent/prog']), ('true', ['/bin/true']), ('false', ['/bin/false']),
+                           ('sh exit 3', ['/bin/sh', '-c', 'exit 3']), ('placeholders', ['/usr/bin/test', '#USER#', '=', '#PASS#']), ('a string', '/bin/true'), ('numbers', [1, 2]), ('null', None)):
+            doc = {'required': req}
+            if users is not DELETE:
+                doc['users'] = users
+            if cmd is not DELETE:
+                doc['cmd'] = cmd
+            MUTANTS.append((f'socks auth required={req} users {uname} cmd {cname}', [(['listeners', 1, 'auth'], doc)]))
 # settings that are validated together: every bad cors / apiPrefix value under every spelling of `ui`
 for uiname, uiedit in (('absent', [(['metrics', 'ui'], DELETE)]), ('<embedded>', [(['metrics', 'ui'], '<embedded>')]), ('a directory', [(['metrics', 'ui'], '/tmp')]), ('null', [])):
     for bname, bedit in (('cors = line break', (['metrics', 'cors'], 'a\nb')), ('cors = control char', (['metrics', 'cors'], '\x01')), ('apiPrefix = api', (['metrics', 'apiPrefix'], 'api')),
@@ -145,6 +157,14 @@ def probe(px, hp, sp):
         s.close()
     except OSError as e:
         out.append('socks:error')
+    # user/password logins (a listed user, then one only an auth command could know)
+    for up in ((b'alice', b'wonderland'), (b'mallory', b'guess')):
+        try:
+            s, r = socks5_connect(sp, '127.0.0.1', origin.port, methods=(2,), userpass=up, timeout=4)
+            out.append(f"login-{up[0].decode()}:{r.get('rep')}")
+            s.close()
+        except (OSError, KeyError, TypeError, IndexError) as e:
+            out.append(f'login-{up[0].decode()}:error')
     # a UDP association with one datagram (timeouts.udp applies to it)
     try:
         s, r = socks5_connect(sp, '0.0.0.0', 0, cmd=3, timeout=4)
